@@ -1,6 +1,5 @@
 (** * AddrMonitor: the monitor [chk_C08] (the one the checks run on the implementation's traces)
-    accepts the model's own trace of every history of distinct children in which nothing is
-    pulled from an upstream (C08)
+    accepts the model's own trace of every history of distinct children (C08)
 
     The monitors are the search for a failing input, not what the theorems are about; this file
     ties one of them to a theorem: what [chk_C08] demands of a trace — every poll and drop of a
@@ -133,16 +132,14 @@ Proof.
 Qed.
 
 Theorem monitor_C08_accepts_the_model ops :
-  NoDup (taken_in P init_state ops) -> pulled_in P init_state ops = [] ->
+  NoDup (taken_in P init_state ops ++ pulled_in P init_state ops) ->
   chk_C08 (trace_of ops) = true.
 Proof.
-  intros Hn Hp. unfold chk_C08, trace_of. apply chk_tr_ok.
+  intros Hn. unfold chk_C08, trace_of. apply chk_tr_ok.
   - intros o evs e H1 H2. eapply trace_nobad; eauto. apply Inv_init.
   - simpl. intros c a a' H1 H2. apply trace_pairs in H1. apply trace_pairs in H2.
     destruct (@log_addresses_stable P HP ops c (fst a) (snd a) (fst a') (snd a')) as [E1 E2]; auto.
-    + rewrite Hp, app_nil_r. exact Hn.
-    + rewrite Hp. intros [].
-    + destruct a, a'. simpl in *. congruence.
+    destruct a, a'. simpl in *. congruence.
 Qed.
 
 End WithParams.
